@@ -429,3 +429,49 @@ def inline_new_helpers(facts, vocabulary):
         if facts.fns[p]["kind"] in ("Fn", "AssocFn", "Closure", "StaticInit"):
             inline_into(facts, p, lambda c: c in new, (), log)
     return log
+
+
+def consumed_closures(facts, log):
+    """closures whose every use was a direct call that has been spliced into the function that creates them: the value is
+    still built there, but nothing receives it any more, so their separate bodies say nothing beyond what the parent says"""
+    out = set()
+    for parent, callee in log:
+        f = facts.fns.get(callee)
+        if f is None or f["kind"] != "Closure" or parent not in facts.fns:
+            continue
+        g = facts.fns[parent]
+        holders = set()
+        for b in g["blocks"]:
+            for st in b["stmts"]:
+                if st["k"] == "assign" and st["rv"].get("k") == "aggregate" and st["rv"].get("agg") == "closure" and st["rv"].get("closure") == callee:
+                    holders.add(st["place"]["local"])
+        changed = True
+        while changed:
+            changed = False
+            for b in g["blocks"]:
+                for st in b["stmts"]:
+                    if st["k"] != "assign" or st["place"]["local"] in holders:
+                        continue
+                    rv = st["rv"]
+                    src = None
+                    whole = lambda pl: all(e["k"] == "deref" for e in pl["proj"])      # the closure itself, not a captured variable
+                    if rv.get("k") == "use" and rv["op"].get("k") in ("move", "copy") and whole(rv["op"]["place"]):
+                        src = rv["op"]["place"]["local"]
+                    elif rv.get("k") in ("ref", "rawptr") and whole(rv["place"]):
+                        src = rv["place"]["local"]
+                    if src in holders:
+                        holders.add(st["place"]["local"])
+                        changed = True
+        used = False
+        for b in g["blocks"]:
+            t = b["term"]
+            if t["k"] != "call":
+                continue
+            if callee_of(t, facts) == callee:
+                used = True
+            for a in t["args"]:
+                if a.get("k") in ("move", "copy") and a["place"]["local"] in holders and all(e["k"] == "deref" for e in a["place"]["proj"]):
+                    used = True
+        if not used:
+            out.add(callee)
+    return out
